@@ -740,6 +740,10 @@ impl<NumericTypes: EvalexprNumericTypes> Node<NumericTypes> {
                 }
             } else {
                 // println!("Inserting as specified");
+                // An operator that takes its first argument from the left cannot be the start of an operand
+                if node.operator().max_argument_amount() == Some(2) {
+                    return Err(EvalexprError::MissingOperatorOutsideOfBrace);
+                }
                 self.children.push(node);
                 Ok(())
             }
